@@ -510,3 +510,68 @@ func VP_C01_many_skips() {
 	vp.Assert(len(g) == n && g[0].K == x0 && g[n-1].K == xl && g[300].K == 300, "values after many skipped fields")
 	vp.Cover("end")
 }
+
+// byte arrays beyond any read-chunk size (8 KiB, 16 KiB, 64 KiB): 8192, 8193,
+// 9000, 16385 and 70001 bytes, bytes at the chunk boundaries arbitrary, followed
+// by a second field: decoded into []byte, `any` and a struct field, the field
+// behind it still decodes, exactly the document is consumed, and the encoder
+// gives the document back.
+func VP_C01_long_bytearrays() {
+	n := []int{8192, 8193, 9000, 16385, 70001}[vp.Choice(5)]
+	vp.SizeBound(n + 64)
+	vp.Unwind(n + 64)
+	vp.MaxSteps(400000000)
+	body := make([]byte, n)
+	for i := range body {
+		body[i] = byte(i*7 + 1)
+	}
+	for _, i := range []int{0, 4095, 8190, 8191, n - 1} {
+		body[i] = vp.Byte()
+	}
+	tail := vp.Int32()
+	doc := []byte{TagCompound}
+	doc = append(doc, vpTagHdr(TagByteArray, "a")...)
+	doc = append(doc, vpBE(uint64(n), 4)...)
+	doc = append(doc, body...)
+	doc = append(doc, vpTagHdr(TagInt, "z")...)
+	doc = append(doc, vpBE(uint64(uint32(tail)), 4)...)
+	doc = append(doc, 0)
+	r := &vpByteReader{b: append(append([]byte{}, doc...), 0x77)}
+	d := NewDecoder(r)
+	d.NetworkFormat(true)
+	var got []byte
+	var z int32
+	var enc any
+	if vp.Bool() {
+		var s struct {
+			A []byte `nbt:"a"`
+			Z int32  `nbt:"z"`
+		}
+		_, err := d.Decode(&s)
+		vp.Assert(err == nil, "typed decode of a well-formed document succeeds")
+		got, z, enc = s.A, s.Z, s
+	} else {
+		var m map[string]any
+		_, err := d.Decode(&m)
+		vp.Assert(err == nil, "typed decode of a well-formed document succeeds")
+		b, ok := m["a"].([]byte)
+		zz, ok2 := m["z"].(int32)
+		vp.Assert(ok && ok2 && len(m) == 2, "any-decode: Go type per tag kind")
+		got, z = b, zz
+		enc = struct {
+			A []byte `nbt:"a"`
+			Z int32  `nbt:"z"`
+		}{b, zz}
+	}
+	vp.Assert(r.pos == len(doc), "decoding consumes exactly the document")
+	vp.Assert(len(got) == n && z == tail, "typed decode: length")
+	for _, i := range []int{0, 1, 4095, 4096, 8190, 8191, n - 2, n - 1} {
+		vp.Assert(got[i] == body[i], "typed decode: elements in order")
+	}
+	var w vpBuf
+	e := NewEncoder(&w)
+	e.NetworkFormat(true)
+	vp.Assert(e.Encode(enc, "") == nil, "encode of an encodable value succeeds")
+	vp.Assert(string(w.b) == string(doc), "encoder output == reference bytes")
+	vp.Cover("end")
+}
